@@ -173,19 +173,19 @@ theorem insertHit_sorted (h : Hit ℝ) (l : List (Hit ℝ)) (hs : Sorted l) : So
     have hs' := List.pairwise_cons.1 hs
     split
     · next hlt =>
-      have hhy : h.key ≤ y.key := le_of_lt ((dlt_iff _ _).1 hlt)
-      refine List.pairwise_cons.2 ⟨?_, hs⟩
-      intro z hz
-      rcases List.mem_cons.1 hz with rfl | hz
-      · exact hhy
-      · exact le_trans hhy (hs'.1 z hz)
-    · next hlt =>
-      have hyh : y.key ≤ h.key := (dlt_false_iff _ _).1 (by simpa using hlt)
+      have hyh : y.key ≤ h.key := le_of_lt ((dlt_iff _ _).1 hlt)
       refine List.pairwise_cons.2 ⟨?_, ih hs'.2⟩
       intro z hz
       rcases (insertHit_mem h z ys).1 hz with rfl | hz
       · exact hyh
       · exact hs'.1 z hz
+    · next hlt =>
+      have hhy : h.key ≤ y.key := (dlt_false_iff _ _).1 (by simpa using hlt)
+      refine List.pairwise_cons.2 ⟨?_, hs⟩
+      intro z hz
+      rcases List.mem_cons.1 hz with rfl | hz
+      · exact hhy
+      · exact le_trans hhy (hs'.1 z hz)
 
 theorem sortHits_sorted (l : List (Hit ℝ)) : Sorted (sortHits l) := by
   induction l with
@@ -206,9 +206,18 @@ theorem insertHit_filter (p : Hit ℝ → Bool) (h : Hit ℝ) (l : List (Hit ℝ
     simp only [insertHit]
     split
     · next hlt =>
+      by_cases hpy : p y = true
+      · rw [List.filter_cons_of_pos hpy, ih hs'.2, List.filter_cons_of_pos hpy]
+        by_cases hph : p h = true
+        · simp only [hph, if_true, insertHit]
+          rw [if_pos hlt]
+        · simp [hph]
+      · rw [List.filter_cons_of_neg hpy, ih hs'.2, List.filter_cons_of_neg hpy]
+    · next hlt =>
+      have hhy : h.key ≤ y.key := (dlt_false_iff _ _).1 (by simpa using hlt)
       by_cases hph : p h = true
       · simp only [hph, if_true, List.filter_cons_of_pos]
-        -- the head of the filtered tail is at least y > h
+        -- the head of the filtered tail is at least y ≥ h
         cases hf : (y :: ys).filter p with
         | nil => simp [insertHit]
         | cons z zs =>
@@ -219,19 +228,11 @@ theorem insertHit_filter (p : Hit ℝ → Bool) (h : Hit ℝ) (l : List (Hit ℝ
             rcases List.mem_cons.1 hz with rfl | hz
             · exact le_refl _
             · exact hs'.1 z hz
-          have : dlt h.dist z.dist = true :=
-            (dlt_iff _ _).2 (lt_of_lt_of_le ((dlt_iff _ _).1 hlt) hyz)
+          have : dlt z.dist h.dist = false :=
+            (dlt_false_iff _ _).2 (le_trans hhy hyz)
           simp [insertHit, this]
       · have hph' : p h = false := by simpa using hph
         simp [hph']
-    · next hlt =>
-      by_cases hpy : p y = true
-      · rw [List.filter_cons_of_pos hpy, ih hs'.2, List.filter_cons_of_pos hpy]
-        by_cases hph : p h = true
-        · simp only [hph, if_true, insertHit]
-          rw [if_neg hlt]
-        · simp [hph]
-      · rw [List.filter_cons_of_neg hpy, ih hs'.2, List.filter_cons_of_neg hpy]
 
 /-- the distance filter commutes with the (stable) sort -/
 theorem sortHits_filter (p : Hit ℝ → Bool) (l : List (Hit ℝ)) :
@@ -244,6 +245,22 @@ theorem sortHits_filter (p : Hit ℝ → Bool) (l : List (Hit ℝ)) :
     by_cases hph : p h = true
     · simp [hph, List.filter_cons_of_pos, sortHits]
     · simp [hph, sortHits]
+
+/-- the first element of the sorted list is the result of `min_element` (first minimal) -/
+theorem sortHits_head (l : List (Hit ℝ)) : (sortHits l).head? = minHit l := by
+  induction l with
+  | nil => rfl
+  | cons h t ih =>
+    simp only [sortHits, minHit]
+    cases hs : sortHits t with
+    | nil =>
+      rw [hs] at ih; simp only [List.head?_nil] at ih
+      rw [← ih]; rfl
+    | cons x xs =>
+      rw [hs] at ih; simp only [List.head?_cons] at ih
+      rw [← ih]
+      simp only [insertHit]
+      split <;> rfl
 
 /-! ### firstExit / firstEntered -/
 
